@@ -60,6 +60,7 @@ type Act struct {
 	Q       int // query index into the file's query list
 	MaxOpen int
 	MaxIdle int
+	Via     int // open: the data source names the file through this kind of path alias
 }
 
 type Q struct {
@@ -85,6 +86,9 @@ func (c *Case) Summary() string {
 		switch a.Kind {
 		case AOpen:
 			fmt.Fprintf(&b, " h%d=open(file%d,%q)", a.Slot, a.File, optStrings[a.Opt])
+			if a.Via != fix.ViaPlain {
+				fmt.Fprintf(&b, "[via %s]", fix.ViaName[a.Via])
+			}
 		case ABurst:
 			fmt.Fprintf(&b, " burst(h%d,%d goroutines,q%d)", a.Slot, a.N, a.Q)
 		case ASetPool:
@@ -109,6 +113,7 @@ type handle struct {
 	db   *sql.DB
 	file int
 	opt  int
+	via  int
 }
 
 type hangError struct{ msg string }
@@ -181,8 +186,25 @@ func oracle(c *Case) (facts, error) {
 	openCount := make([]int, len(c.Files))
 	closedOnce := map[string]bool{} // dsn that was opened and fully closed before
 	fresh := map[int]bool{}         // slot not yet used for a query
-	dsnOf := func(file, opt int) string {
-		s := "file:" + paths[file]
+	dsnOf := func(file, opt, via int) string {
+		p := paths[file]
+		if via != fix.ViaPlain {
+			alias, lexical, err := fix.Alias(p, via)
+			if err != nil {
+				panic("INFRA: " + err.Error())
+			}
+			if lexical != p && file < len(c.Alt) {
+				// where a purely textual clean-up of the alias points, another
+				// valid index waits
+				if _, err := os.Stat(lexical); err != nil {
+					if _, err := fix.BuildAt(lexical, c.Alt[file].Rows(), fix.WMemFile); err != nil {
+						panic("INFRA: " + err.Error())
+					}
+				}
+			}
+			p = alias
+		}
+		s := "file:" + p
 		if optStrings[opt] != "" {
 			s += "?" + optStrings[opt]
 		}
@@ -256,12 +278,12 @@ func oracle(c *Case) (facts, error) {
 		openCount[h.file]--
 		stillOpen := false
 		for _, o := range handles {
-			if o.file == h.file && o.opt == h.opt {
+			if o.file == h.file && o.opt == h.opt && o.via == h.via {
 				stillOpen = true
 			}
 		}
 		if !stillOpen {
-			closedOnce[dsnOf(h.file, h.opt)] = true
+			closedOnce[dsnOf(h.file, h.opt, h.via)] = true
 		}
 		if openCount[h.file] == 0 && c.broken(h.file) != BMissing {
 			if err := released(paths[h.file]); err != nil {
@@ -277,7 +299,7 @@ func oracle(c *Case) (facts, error) {
 			if handles[a.Slot] != nil {
 				continue
 			}
-			dsn := dsnOf(a.File, a.Opt)
+			dsn := dsnOf(a.File, a.Opt, a.Via)
 			if closedOnce[dsn] {
 				f.reopenAfterClose = true
 			}
@@ -290,7 +312,7 @@ func oracle(c *Case) (facts, error) {
 			if err != nil {
 				return f, fmt.Errorf("%s: sql.Open(%q): %v", label, dsn, err)
 			}
-			handles[a.Slot] = &handle{db: db, file: a.File, opt: a.Opt}
+			handles[a.Slot] = &handle{db: db, file: a.File, opt: a.Opt, via: a.Via}
 			openCount[a.File]++
 			fresh[a.Slot] = true
 		case AQuery, APrepQuery:
@@ -461,8 +483,8 @@ func drawCase(t *rapid.T, maxActs int) *Case {
 		c.Queries = append(c.Queries, qs)
 	}
 	// simulate handle slots so that actions mostly make sense
-	open := map[int][2]int{}
-	closedDSN := [][2]int{}
+	open := map[int][3]int{}
+	closedDSN := [][3]int{}
 	n := rapid.IntRange(2, maxActs).Draw(t, "nacts")
 	for i := 0; i < n; i++ {
 		k := rapid.IntRange(0, 9).Draw(t, "act")
@@ -470,7 +492,9 @@ func drawCase(t *rapid.T, maxActs int) *Case {
 			a := Act{Kind: AOpen, File: rapid.IntRange(0, nf-1).Draw(t, "file"), Opt: rapid.IntRange(0, len(optStrings)-1).Draw(t, "opt")}
 			if len(closedDSN) > 0 && rapid.Bool().Draw(t, "reopen") {
 				p := closedDSN[rapid.IntRange(0, len(closedDSN)-1).Draw(t, "which")]
-				a.File, a.Opt = p[0], p[1]
+				a.File, a.Opt, a.Via = p[0], p[1], p[2]
+			} else if rapid.IntRange(0, 3).Draw(t, "alias") == 0 {
+				a.Via = rapid.IntRange(1, fix.NVia-1).Draw(t, "via")
 			}
 			for s := 0; s < 8; s++ {
 				if _, used := open[s]; !used {
@@ -478,7 +502,7 @@ func drawCase(t *rapid.T, maxActs int) *Case {
 					break
 				}
 			}
-			open[a.Slot] = [2]int{a.File, a.Opt}
+			open[a.Slot] = [3]int{a.File, a.Opt, a.Via}
 			c.Acts = append(c.Acts, a)
 			continue
 		}
